@@ -909,6 +909,7 @@ func (w *World) apply(e Event) {
 			for _, o := range w.nodes {
 				if o.live() && o.d != nil && o.ctx().IsPrimary() && !o.ctx().RequestSentOrReceived() && txSubscribed(o) && !o.pendingReset {
 					w.extendedWaitAtNewTx = true
+					w.stats.Antecedents["new-transaction-during-extended-wait"]++
 				}
 			}
 		}
